@@ -857,6 +857,7 @@ pub static LOG_BYTES: std::sync::atomic::AtomicU64 = std::sync::atomic::AtomicU6
 static LOGGING_ON: std::sync::atomic::AtomicBool = std::sync::atomic::AtomicBool::new(false);
 /// how often the logger used the library itself, and how often what it did there went wrong (see `Sink::log`)
 /// how often the background thread moved the process's log level (see `install_log_sink`)
+static ENABLED_SAYS: std::sync::atomic::AtomicBool = std::sync::atomic::AtomicBool::new(true);
 pub static LEVEL_CHANGES: std::sync::atomic::AtomicU64 = std::sync::atomic::AtomicU64::new(0);
 pub static LOGGER_REENTRIES: std::sync::atomic::AtomicU64 = std::sync::atomic::AtomicU64::new(0);
 pub static LOGGER_TROUBLE: std::sync::atomic::AtomicU64 = std::sync::atomic::AtomicU64::new(0);
@@ -877,7 +878,9 @@ impl std::fmt::Write for CountWriter {
 
 impl log::Log for Sink {
     fn enabled(&self, _: &log::Metadata<'_>) -> bool {
-        true
+        // what `log_enabled!` reports is the LOGGER's business (a logger may decline a target or a level that the global
+        // maximum admits, and the other way round); the rotor thread flips this answer independently of the level
+        ENABLED_SAYS.load(Ordering::Relaxed)
     }
     fn log(&self, record: &log::Record<'_>) {
         let mut w = CountWriter(0);
@@ -940,8 +943,10 @@ pub fn install_log_sink() {
             let mut k = 0usize;
             loop {
                 log::set_max_level(log::LevelFilter::Trace);
+                ENABLED_SAYS.store(k % 4 != 2, Ordering::Relaxed);
                 std::thread::sleep(std::time::Duration::from_millis(6));
                 log::set_max_level(levels[k % levels.len()]);
+                ENABLED_SAYS.store(k % 3 != 1, Ordering::Relaxed);
                 LEVEL_CHANGES.fetch_add(1, Ordering::Relaxed);
                 k += 1;
                 std::thread::sleep(std::time::Duration::from_millis(if k % 5 == 2 { 9 } else { 4 }));
